@@ -431,11 +431,6 @@ def process(ctx, mod, root, rng):
             d = out_dir(root, m, pl)
             if not any(os.path.exists(str(d / FILES[(t, pl)])) for t in TEMPLATES):
                 continue
-            present = set()
-            for t in TEMPLATES:
-                info = res["files"].get(str(d / FILES[(t, pl)]))
-                if info:
-                    present |= {x["name"] for x in info["types"]}
             src, lines = assertion_file(rng, m, pl)
             (d / ASSERT_FILE[pl]).write_text(src)
             res["lines"][(m["src"]["name"], pl)] = lines
@@ -457,8 +452,12 @@ def process(ctx, mod, root, rng):
                     continue
                 seen_if.add(key)
                 t = "testify" if s.startswith("Tf") else "matryer"
-                res["fails"].append({"kind": "not-assignable", "src": sname, "placement": pl, "template": t, "iface": iname, "struct": s,
-                                     "assertion": kind, "messages": [msg]})
+                if re.search(r"undefined: %s\b" % re.escape(s), msg):
+                    res["fails"].append({"kind": "mock-missing", "src": sname, "placement": pl, "template": t, "iface": iname, "struct": s,
+                                         "assertion": "missing", "messages": ["no mock type %s for %s: %s" % (s, iname, msg)]})
+                else:
+                    res["fails"].append({"kind": "not-assignable", "src": sname, "placement": pl, "template": t, "iface": iname, "struct": s,
+                                         "assertion": kind, "messages": [msg]})
             else:
                 other.append("%s:%d: %s" % (f, ln, msg))
         if other and not seen_if:
@@ -565,6 +564,7 @@ def restrict(mod, sname, iname=None, keep_methods=None, keep_embeds=None):
         for k in [k for k in i if k.startswith("_")]:
             del i[k]
     m2["_only"] = iname if (iname is None or isinstance(iname, list)) else [iname]
+    m2["_plan"] = {i["name"]: [list(e) for e in i["_entries"]] for i in m.get("_mock", [])} if "_mock" in m else m.get("_plan", {})
     if iname is not None and not isinstance(iname, list) and (keep_methods is not None or keep_embeds is not None):
         for i in m2["ifaces"] + [d for d in m2["extra_decls"] if d["pkg"] == ""]:
             if i["name"] == iname and i.get("kind", "iface") == "iface":
@@ -591,13 +591,20 @@ def replan(mod, fail):
             i["_ms"], i["_nameable"], i["_outside"] = ms, nameable, outside
             i["_depth"] = embed_depth(table, gen_pkgs.self_type(table[("", i["name"])])) - 1
             ents = []
-            for t in TEMPLATES:
-                if t in outside or (fail and fail.get("template") and t != fail["template"]):
-                    continue
-                for pl in PLACEMENTS:
-                    if (pl == "out" and not nameable) or (fail and fail.get("placement") and pl != fail["placement"]):
+            if i["name"] in m.get("_plan", {}):
+                # the requests of the original run (all entries of the interface: the grouping clause needs them together)
+                ents = [tuple(e) for e in m["_plan"][i["name"]]]
+                if fail and fail.get("kind") in ("not-assignable", "does-not-compile", "mockery-error", "unparsable") and fail.get("assertion") != "missing":
+                    keep = [e for e in ents if e[0] == fail.get("template", e[0]) and e[1] == fail.get("placement", e[1])]
+                    ents = keep or ents
+            else:
+                for t in TEMPLATES:
+                    if t in outside:
                         continue
-                    ents.append((t, pl, PREFIX[t] + i["name"], False))
+                    for pl in PLACEMENTS:
+                        if pl == "out" and not nameable:
+                            continue
+                        ents.append((t, pl, PREFIX[t] + i["name"], False))
             i["_entries"] = ents
             m["_mock"].append(i)
 
@@ -656,7 +663,7 @@ def strip(mod):
     """JSON-able copy without the harness' working fields"""
     def clean(x):
         if isinstance(x, dict):
-            return {k: clean(v) for k, v in x.items() if not k.startswith("_") or k == "_only"}
+            return {k: clean(v) for k, v in x.items() if not k.startswith("_") or k in ("_only", "_plan")}
         if isinstance(x, list):
             return [clean(v) for v in x]
         return x
@@ -811,7 +818,7 @@ def check(ctx, only=None):
         for mod in modules:
             replan(mod, None)
     else:
-        nmod, nsrc = (8, 6) if ctx.thorough() else (1, 5)
+        nmod, nsrc = (8, 7) if ctx.thorough() else (1, 7)
         modules = []
         for j in range(nmod):
             srcs = [gen_src(ctx.rng, k, renamed) for k in range(nsrc)]
@@ -867,9 +874,10 @@ def check(ctx, only=None):
             reported += 1
             small, sf = shrink(ctx, mod, f, "m%d_%d" % (j, reported))
             iname = (sf[0].get("iface") if sf else None) or f.get("iface")
-            rp = ctx.write_replay("oracle-%s-%s-%s" % (f["src"], f.get("iface") or "file", f["kind"]), {
+            rp = ctx.write_replay("oracle-%d-%s-%s-%s" % (reported, f["src"], f.get("iface") or "file", f["kind"]), {
                 "what": {"not-assignable": "the generated mock type is not assignable to the source interface",
                          "does-not-compile": "the package holding the generated mocks does not type-check",
+                         "mock-missing": "a requested mock type is not in its output file",
                          "missing-file": "mockery wrote no output file", "mockery-error": "mockery fails on a valid module (the generated file cannot be formatted)", "unparsable": "the generated file does not parse",
                          "mock-count": "the number of mock types in an output file differs from the number of (interface, configs entry) requests routed to it"}[f["kind"]],
                 "failure": f, "shrunk_failure": sf, "interface_source": go_text(small, iname) if iname else None,
